@@ -3,6 +3,7 @@ package main
 import (
 	"fmt"
 	"go/types"
+	"os"
 	"strings"
 
 	"golang.org/x/tools/go/ssa"
@@ -60,12 +61,48 @@ func (f *Frame) doCall(c *cursor, site ssa.Instruction, call *ssa.CallCommon, re
 	if cl := f.findClosure(call.Value); cl != nil {
 		return f.callFunc(c, site, cl.fn, call.Args, cl)
 	}
-	// unknown function value
+	// a func value: dispatch on the identities of the closures created so far in
+	// this encoding (they are distinct constants); anything else is unknown code
 	fv := f.val(call.Value)
 	f.guard(c, "nil", site, not(eq(fv, intLit(0))))
+	var cands []*closureVal
+	for _, cv := range e.closureIDs {
+		if types.Identical(cv.fn.Signature, call.Signature()) && !f.onStack(cv.fn) {
+			cands = append(cands, cv)
+		}
+	}
+	if os.Getenv("GOVC_DEBUG") != "" {
+		fmt.Fprintf(os.Stderr, "dyn call in %s (top %s): %d candidate closures of %d known\n", f.fn.Name(), e.Key, len(cands), len(e.closureIDs))
+	}
+	if len(cands) == 0 || len(cands) > 4 || call.Signature().Results().Len() > 0 {
+		fams, all := f.dynEffects(call)
+		e.havoc(c.st, fams, all)
+		return f.freshResults(call.Signature(), c.st, "dyn")
+	}
+	before := c.st.clone()
+	var conds []Term
+	var sts []*State
+	var reaches []Term
+	other := tTrue
+	for _, cv := range cands {
+		is := eq(fv, cv.id)
+		other = and(other, not(is))
+		sub := &cursor{reach: and(c.reach, is), st: before.clone(), blk: c.blk}
+		f.callFunc(sub, site, cv.fn, call.Args, cv)
+		conds = append(conds, is)
+		sts = append(sts, sub.st)
+		reaches = append(reaches, or(not(is), sub.reach))
+	}
+	// none of the known closures: unknown effects
+	unk := before.clone()
 	fams, all := f.dynEffects(call)
-	e.havoc(c.st, fams, all)
-	return f.freshResults(call.Signature(), c.st, "dyn")
+	e.havoc(unk, fams, all)
+	conds = append(conds, other)
+	sts = append(sts, unk)
+	ns := e.mergeStates(conds, sts)
+	*c.st = *ns
+	c.reach = e.define(f.pfx+"r.dyn", and(append([]Term{c.reach}, reaches...)...))
+	return nil
 }
 
 func (f *Frame) findClosure(v ssa.Value) *closureVal {
